@@ -243,8 +243,9 @@ def run_terminal_info(mutate=None):
 def _bounded_quick():
     r1 = replay_terminal_info({})
     r2 = replay_two_solvers({})
-    bad = list(r1.get('failing_history') or []) + list(r2.get('failing_history') or [])
-    return bad, 2
+    r3 = replay_retried_steps({})
+    bad = list(r1.get('failing_history') or []) + list(r2.get('failing_history') or []) + list(r3.get('failing_history') or [])
+    return bad, 3
 
 
 def units():
@@ -254,6 +255,8 @@ def units():
         Unit("set_link_exponents[fix_psi=False]", F + "MeshOperators.set_link_exponents", c10.run_free, props=["C06", "C10"], timeout=900),
         Unit("step_at_pinned_site[terminal_psi=0]", "tdgl.solver.solver:TDGLSolver.solve_for_psi_squared", run_step_zero, props=["C06"], timeout=300),
         Unit("Device.terminal_info", "tdgl.device.device:Device.terminal_info", run_terminal_info, props=["C06"], timeout=300),
+        Unit("adaptive_euler_step[every return path]", "tdgl.solver.solver:TDGLSolver.adaptive_euler_step",
+             lambda m=None: __import__("checks.update_common", fromlist=["x"]).run_retry(m, True, prefixes=("C06.",)), props=["C06"], timeout=600),
         Unit("TDGLSolver.__init__[two solvers on one mesh]", "tdgl.solver.solver:TDGLSolver.__init__", lambda m=None: ic.run_init(m, prefixes=("C06.",), again=True, narrow=dict(adaptive=True, include_screening=False)), props=["C06"], timeout=900),
         Unit("step_at_pinned_site[terminal_psi!=0]", "tdgl.solver.solver:TDGLSolver.solve_for_psi_squared", run_step_nonzero, props=["C06"], timeout=300),
             _h.bounded_unit("pinned sites of real devices [bounded]", "Device.terminal_info / TDGLSolver (real runs)", "C06", _bounded_quick, "terminal_sites_follow_the_device_and_each_solver_pins_its_own", timeout=900)]
@@ -320,6 +323,49 @@ def replay_scope(unit, obl):
     return (obl or {}).get("name", "") if unit.startswith("step_at_pinned_site") else "unit"
 
 
+def replay_retried_steps(obl=None):
+    """native: the REAL adaptive_euler_step of a real solver (terminal_psi = 0, driven film) with scripted refusals of the first 0..3 attempts: whatever
+    attempt is answered, the order parameter handed back is the terminal value on every terminal site and nowhere else held"""
+    import logging
+    import numpy as np
+    logging.disable(logging.CRITICAL)
+    import tdgl
+    from tdgl.solver.solver import TDGLSolver
+    from checks import update_native
+    dev = update_native.device()
+    sites = np.concatenate([t.site_indices for t in dev.terminal_info()])
+    bad, n = [], 0
+    rng = np.random.default_rng(0)
+    for refusals in (0, 1, 2, 3):
+        opts = tdgl.SolverOptions(solve_time=1, adaptive=True, max_solve_retries=5, dt_init=1e-3, dt_max=1e-1, terminal_psi=0.0)
+        s = TDGLSolver(dev, opts, applied_vector_potential=0.3, terminal_currents=dict(source=2.0, drain=-2.0))
+        real = TDGLSolver.solve_for_psi_squared
+        calls = []
+
+        def scripted(**kw):
+            calls.append(kw["dt"])
+            if len(calls) <= refusals:
+                return None
+            return real(**kw)
+        s.solve_for_psi_squared = scripted
+        psi = np.array(s.psi_init, dtype=complex)
+        free = np.setdiff1d(np.arange(len(psi)), sites)
+        psi[free] = 0.8 * np.exp(1j * rng.uniform(0, 2 * np.pi, len(free)))
+        mu = rng.normal(0, 0.3, len(psi))
+        n += 1
+        out = s.adaptive_euler_step(3, psi, np.abs(psi) ** 2, mu, s.epsilon, 0.05)
+        worst = float(np.abs(np.asarray(out[0])[sites]).max())
+        moved = float(np.abs(np.asarray(out[0])[free] - psi[free]).max())
+        if worst != 0.0:
+            bad.append(dict(what="order parameter on terminal sites is not the terminal value 0 after a step that was answered on a retried attempt" if refusals else
+                            "order parameter on terminal sites is not the terminal value 0 after a step", refused_attempts_before_the_answer=refusals, dt_tried=[float(x) for x in calls],
+                            max_abs_psi_on_terminal_sites=worst, device="3 x 2 film with source / drain strips, terminal_psi=0.0, A=0.3, I=2"))
+        if moved == 0.0:
+            bad.append(dict(what="free sites did not move in a driven step (everything pinned)", refused_attempts_before_the_answer=refusals))
+    logging.disable(logging.NOTSET)
+    return dict(confirmed=bool(bad), failing_history=bad[:2], evaluations=n)
+
+
 def replay_two_solvers(obl):
     """native: two solves on one device object, terminal_psi None then 0 and the other way round: psi on terminal sites"""
     import os
@@ -377,7 +423,10 @@ def replay(unit, obl):
         bad, n = _bounded_quick()
         return dict(confirmed=bool(bad), failing_input=(bad or [None])[0], evaluations=n)
     if unit.startswith("TDGLSolver.__init__"):
-        return replay_two_solvers(obl)
+        r = replay_two_solvers(obl)
+        return r if r.get("confirmed") else replay_retried_steps(obl)
+    if unit.startswith("adaptive_euler_step"):
+        return replay_retried_steps(obl)
     if unit == "Device.terminal_info":
         return replay_terminal_info(obl)
     if unit.startswith("step_at_pinned_site"):
